@@ -246,6 +246,10 @@ def rich_prefix(nblocks=2, same_names=True):
         P.append({"op": "set_meta", "k": "tag", "t": b, "sec": 2})
         P.append({"op": "set_meta", "k": "mtag", "t": b, "sec": 4})
         P.append({"op": "set_meta", "k": "source", "t": b * 3 + 1, "sec": 2})
+        P.append({"op": "mk_frame", "blk": b, "name": pre + "table", "type": "t",
+                  "cols": [["a", "int"], ["b", "str"], ["c", "float"]], "rows": [[1, "x", 0.5], [2, "ü", -1.5]]})
+        P.append({"op": "link", "k": "group", "t": g0, "role": "data_frames", "target": b})
+        P.append({"op": "set_meta", "k": "frame", "t": b, "sec": 3})
     return P
 
 
